@@ -90,6 +90,33 @@ impl Composer {
         self.add_point_gates(a, b)
     }
 
+    /// The copy-constraint classes as registered in the permutation: for every
+    /// witness index the wire positions `(column 0..=3 for a b c d, row)` that
+    /// the permutation argument ties together.
+    pub fn verif_permutation_positions(&self) -> Vec<(usize, Vec<(u8, usize)>)> {
+        use super::WireData;
+        let mut out: Vec<(usize, Vec<(u8, usize)>)> = self
+            .perm
+            .witness_map
+            .iter()
+            .map(|(w, v)| {
+                let mut p: Vec<(u8, usize)> = v
+                    .iter()
+                    .map(|wd| match wd {
+                        WireData::Left(i) => (0u8, *i),
+                        WireData::Right(i) => (1u8, *i),
+                        WireData::Output(i) => (2u8, *i),
+                        WireData::Fourth(i) => (3u8, *i),
+                    })
+                    .collect();
+                p.sort();
+                (w.index(), p)
+            })
+            .collect();
+        out.sort();
+        out
+    }
+
     /// The built-in scalar dictionary of compressed circuits.
     pub fn verif_compress_scalar_table(
         hades_optimization: bool,
